@@ -62,6 +62,8 @@ def run(ctx):
             ctx.violation({"clause": ex[1], "site": site, "message": msg}, "%s (%s): %r %s" % (ex[1], site, o["q"][:80], o.get("msg", "")[:100]),
                           {"query": o["q"], "parse": o["parse"], "evals": o["evals"], "formats": o["formats"], "died": o["died"], "msg": o.get("msg")})
         with open(obs) as fh:
+            ctx.extra["not_run_after_30_hangs"] = sum(1 for l in fh if '"parse":"skipped"' in l)
+        with open(obs) as fh:
             for k, l in enumerate(fh):
                 if k in (5, 5000):
                     ctx.sample({"from": "executed", "observation": json.loads(l)})
